@@ -7,7 +7,7 @@ from common import hx
 from eth_hash.auto import keccak
 
 ID = "C05"
-LEAN_IMPORTS = ["PyTrie.Props.C05", "PyTrie.Props.C05Batch", "PyTrie.Props.NonVacuity", "PyTrie.Props.FreeExec", "PyTrie.Props.NonVacuity5", "PyTrie.Props.FreeBatch", "PyTrie.Props.HistoryBlocks", "PyTrie.Props.NonVacuity9", "PyTrie.Props.HistoryFailCommit", "PyTrie.Props.NonVacuity11", "PyTrie.Props.HistoryProgress"]
+LEAN_IMPORTS = ["PyTrie.Props.C05", "PyTrie.Props.C05Batch", "PyTrie.Props.NonVacuity", "PyTrie.Props.FreeExec", "PyTrie.Props.NonVacuity5", "PyTrie.Props.FreeBatch", "PyTrie.Props.HistoryBlocks", "PyTrie.Props.NonVacuity9", "PyTrie.Props.HistoryFailCommit", "PyTrie.Props.NonVacuity11", "PyTrie.Props.HistoryProgress", "PyTrie.Props.HistoryFailOp", "PyTrie.Props.NonVacuity15"]
 THEOREMS = [
     "PyTrie.Props.Free.batch_op_leaves_outer",
     "PyTrie.Props.Free.abort_restores",
@@ -75,6 +75,14 @@ THEOREMS = [
     "PyTrie.Props.Free.good_of_good'",
     "PyTrie.Props.Free.history_never_raises",
     "PyTrie.Props.Free.history_blocks_get'",
+    "PyTrie.Props.Free.fail_op_step",
+    "PyTrie.Props.Free.history_fail_op_world",
+    "PyTrie.Props.Free.history_fail_op_lockstep",
+    "PyTrie.Props.Free.history_fail_op_get",
+    "PyTrie.Props.NonVacuity15.gsteps_good",
+    "PyTrie.Props.NonVacuity15.world_witness",
+    "PyTrie.Props.NonVacuity15.lockstep_witness",
+    "PyTrie.Props.NonVacuity15.evaluated",
 ]
 RULE = ("prior history, then squash_changes blocks with every exit kind: normal, an exception after n of the "
         "block's operations (every n), and - for non-pruning tries - the n-th database write of the commit failing "
